@@ -247,6 +247,7 @@ func (u *Unit) loopEnter(st *State, lp *Loop) {
 		lc.headTokens[k] = v
 	}
 	lc.headLocks = len(st.locks)
+	lc.headCreated = len(st.created)
 	st.loops = append(st.loops, lc)
 }
 
@@ -264,6 +265,7 @@ func (u *Unit) loopBackEdge(st *State, lp *Loop) {
 	}
 	first := lp.header.Instrs[0]
 	u.addCover(st, tag+".backedge", "", "the loop body can complete an iteration under the invariant")
+	u.checkCreatedInvariants(st, tag+".created", first, lc.headCreated)
 	env := u.newEnv(st)
 	env.head = lc.head
 	env.pre = lc.pre
